@@ -677,6 +677,24 @@ def _run_case(doc, case, ci, res, inst, space, W, H, items, n_items, lo, hi):
             if gitems != items or int(gi.bin_width) != W \
                     or int(gi.bin_height) != H:
                 bad = ["shape"] + bad
+            # "right shape" also holds for the stored form: a text that does
+            # not hold exactly n_items*6 integers must not yield a packing
+            import re
+            payload = text
+            if store == "log":
+                a3 = text.find("BEGIN_RESULT_Y")
+                b3 = text.find("END_RESULT_Y")
+                payload = text[a3 + len("BEGIN_RESULT_Y"):b3] \
+                    if 0 <= a3 < b3 else ""
+                payload = "\n".join(
+                    ln.split("#")[0] for ln in payload.splitlines())
+            # only for well-formed integer lists (malformed tokens such as a
+            # lone "-" are read leniently by numpy on the unchanged tree and
+            # are left to the feasibility oracle)
+            if re.fullmatch(r"\s*-?\d+(\s*;\s*-?\d+)*\s*", payload):
+                n_tok = len(re.findall(r"-?\d+", payload))
+                if n_tok != n_items * 6 and "shape" not in bad:
+                    bad = ["shape"] + bad
             res["events"].append([how, "returned", core.digest(grows)[:12],
                                   list(bad)])
             res["states"].append(
